@@ -341,4 +341,16 @@ example : exSnap.proj ≠ exSnap.projMatched := by
       (exSnap.projMatched.orders.map fun p => p.2.kit.minUnitsMatch) := by rw [h]
   exact absurd this (by decide)
 
+/-- **C10 / stored TLV streams are read without a record-size cap** (regenerated): the order and account extra-data
+streams are written with `Stream.Encode` and read with `Stream.DecodeWithParsedTypes` – not the `…P2P` variants, which
+refuse any record longer than 65535 bytes.  The writer has no cap and neither has the RPC layer (an allow / deny list of
+1986 node ids already needs 65538 bytes), so the round-trip theorems, whose model decoder is the uncapped one
+(`C10Tlv`, `p2p = false`), need no length hypothesis on the optional terms. -/
+theorem C10_stored_streams_uncapped :
+    Store.tlvStreamCalls.lookup "serializeOrderTlvData" = some ["Encode"] ∧
+    Store.tlvStreamCalls.lookup "deserializeOrderTlvData" = some ["DecodeWithParsedTypes"] ∧
+    Store.tlvStreamCalls.lookup "serializeAccountTlvData" = some ["Encode"] ∧
+    Store.tlvStreamCalls.lookup "deserializeAccountTlvData" = some ["DecodeWithParsedTypes"] := by
+  decide
+
 end Pool.C10
